@@ -89,4 +89,109 @@ theorem sig_value_pos {radix : Nat} (hr : 0 < radix) {integer : List Nat} {fract
     simp only [List.take_succ_cons, dv, List.map_cons]
     exact ofDigits_pos_of_head hr _ (digitVal_ne_zero hc h48)
 
+/-! ## `scientific_exponent` -/
+
+theorem wrapI64_eq {x : Int} (h1 : -(2 ^ 63 : Int) ≤ x) (h2 : x < (2 ^ 63 : Int)) : wrapI64 x = x := by
+  unfold wrapI64 wrapI
+  have h64 : (2 : Int) ^ 64 = 18446744073709551616 := by norm_num
+  have h63 : (2 : Int) ^ (64 - 1) = 9223372036854775808 := by norm_num
+  have h63' : (2 : Int) ^ 63 = 9223372036854775808 := by norm_num
+  simp only [h64, h63]
+  rw [h63'] at h1 h2
+  omega
+
+/-- `while m >= d { m /= d; e += inc }` divides by `d^t` for the `t` that brings `m` below `d` -/
+theorem divLoop_spec {d : Nat} (hd : 2 ≤ d) {inc : Int} (hi0 : 0 ≤ inc) (hi4 : inc ≤ 4) :
+    ∀ (fuel m : Nat) (e : Int), m < 2 ^ fuel → -(2 ^ 60 : Int) ≤ e → e + 4 * fuel ≤ 2 ^ 60 →
+      ∃ t, t ≤ fuel ∧ divLoop d inc fuel m e = (m / d ^ t, e + inc * t) ∧ m / d ^ t < d ∧ (1 ≤ m → 1 ≤ m / d ^ t)
+  | 0, m, e, hm, _, _ => by
+    have : m = 0 := by simpa using hm
+    subst this
+    exact ⟨0, Nat.le_refl _, by simp [divLoop], by simp; omega, by simp⟩
+  | fuel + 1, m, e, hm, he1, he2 => by
+    have h60 : (2 : Int) ^ 60 = 1152921504606846976 := by norm_num
+    have h63 : (2 : Int) ^ 63 = 9223372036854775808 := by norm_num
+    unfold divLoop
+    by_cases hc : m ≥ d ∧ d ≥ 2
+    · rw [if_pos hc]
+      have hw : wrapI64 (e + inc) = e + inc := by apply wrapI64_eq <;> omega
+      rw [hw]
+      have hmd : m / d < 2 ^ fuel := by
+        rw [Nat.div_lt_iff_lt_mul (by omega)]
+        calc m < 2 ^ (fuel + 1) := hm
+          _ = 2 ^ fuel * 2 := Nat.pow_succ ..
+          _ ≤ 2 ^ fuel * d := Nat.mul_le_mul_left _ hd
+      obtain ⟨t, ht, e1, e2, e3⟩ := divLoop_spec hd hi0 hi4 fuel (m / d) (e + inc) hmd (by omega) (by push_cast at he2 ⊢; omega)
+      refine ⟨t + 1, by omega, ?_, ?_, ?_⟩
+      · rw [e1, Nat.div_div_eq_div_mul, Nat.pow_succ, Nat.mul_comm d]
+        congr 1; push_cast; ring
+      · rw [Nat.pow_succ, Nat.mul_comm (d ^ t) d, ← Nat.div_div_eq_div_mul]; exact e2
+      · intro _
+        rw [Nat.pow_succ, Nat.mul_comm (d ^ t) d, ← Nat.div_div_eq_div_mul]
+        exact e3 ((Nat.le_div_iff_mul_le (by omega)).mpr (by omega))
+    · rw [if_neg hc]
+      exact ⟨0, Nat.zero_le _, by simp, by simp; omega, by simp⟩
+
+/-- **`scientific_exponent`**: for a non-zero `u64` mantissa and a sane exponent it returns
+`exponent + ⌊log_radix mantissa⌋` — the weight of the leading digit of `mantissa · radix^exponent` -/
+theorem scientificExponent_spec {radix : Nat} (hr : 2 ≤ radix) (hr36 : radix ≤ 36) {m : Nat} (hm1 : 1 ≤ m)
+    (hm : m < 2 ^ 64) {e : Int} (he1 : -(2 ^ 30 : Int) ≤ e) (he2 : e ≤ 2 ^ 30) :
+    ∃ T : Nat, radix ^ T ≤ m ∧ m < radix ^ (T + 1) ∧ scientificExponent radix m e = e + T := by
+  have h30 : (2 : Int) ^ 30 = 1073741824 := by norm_num
+  have h31 : (2 : Int) ^ 31 = 2147483648 := by norm_num
+  have h60 : (2 : Int) ^ 60 = 1152921504606846976 := by norm_num
+  have h64 : (2 : Nat) ^ 64 = 18446744073709551616 := by norm_num
+  have hr2 : radix * radix < 2 ^ 64 := by
+    have : radix * radix ≤ 36 * 36 := Nat.mul_le_mul hr36 hr36
+    omega
+  have hr4 : radix * radix * (radix * radix) < 2 ^ 64 := by
+    have : radix * radix ≤ 36 * 36 := Nat.mul_le_mul hr36 hr36
+    have : radix * radix * (radix * radix) ≤ 36 * 36 * (36 * 36) := Nat.mul_le_mul this this
+    omega
+  have hge4 : 2 ≤ radix * radix * (radix * radix) := by
+    have : 2 * 2 ≤ radix * radix := Nat.mul_le_mul hr hr
+    have : 4 * 4 ≤ radix * radix * (radix * radix) := Nat.mul_le_mul this this
+    omega
+  have hge2 : 2 ≤ radix * radix := by
+    have : 2 * 2 ≤ radix * radix := Nat.mul_le_mul hr hr
+    omega
+  unfold scientificExponent
+  dsimp only
+  rw [wrap64_id hr2, wrap64_id hr4]
+  obtain ⟨t4, ht4, a1, a2, a3⟩ := divLoop_spec hge4 (inc := 4) (by omega) (by omega) 64 m e hm (by omega) (by omega)
+  rw [a1]
+  dsimp only
+  have hm1' : m / (radix * radix * (radix * radix)) ^ t4 < 2 ^ 64 := Nat.lt_of_le_of_lt (Nat.div_le_self _ _) hm
+  obtain ⟨t2, ht2, b1, b2, b3⟩ := divLoop_spec hge2 (inc := 2) (by omega) (by omega) 64
+    (m / (radix * radix * (radix * radix)) ^ t4) (e + 4 * t4) hm1' (by omega) (by push_cast; omega)
+  rw [b1]
+  dsimp only
+  have hm2' : m / (radix * radix * (radix * radix)) ^ t4 / (radix * radix) ^ t2 < 2 ^ 64 :=
+    Nat.lt_of_le_of_lt (Nat.div_le_self _ _) hm1'
+  obtain ⟨t1, ht1, c1, c2, c3⟩ := divLoop_spec hr (inc := 1) (by omega) (by omega) 64
+    (m / (radix * radix * (radix * radix)) ^ t4 / (radix * radix) ^ t2) (e + 4 * t4 + 2 * t2) hm2' (by omega)
+    (by push_cast; omega)
+  rw [c1]
+  dsimp only
+  -- the three quotients are one division by `radix^T`
+  have hpow : (radix * radix * (radix * radix)) ^ t4 * (radix * radix) ^ t2 * radix ^ t1 =
+      radix ^ (4 * t4 + 2 * t2 + t1) := by
+    have e4 : radix * radix * (radix * radix) = radix ^ 4 := by ring
+    have e2 : radix * radix = radix ^ 2 := by ring
+    rw [e4, e2, ← Nat.pow_mul, ← Nat.pow_mul, ← Nat.pow_add, ← Nat.pow_add]
+  have hq : m / (radix * radix * (radix * radix)) ^ t4 / (radix * radix) ^ t2 / radix ^ t1 =
+      m / radix ^ (4 * t4 + 2 * t2 + t1) := by
+    rw [Nat.div_div_eq_div_mul, Nat.div_div_eq_div_mul, ← Nat.mul_assoc, hpow]
+  rw [hq] at c2 c3
+  have hpos : 0 < radix ^ (4 * t4 + 2 * t2 + t1) := Nat.pow_pos (by omega)
+  have hlow := c3 (b3 (a3 hm1))
+  refine ⟨4 * t4 + 2 * t2 + t1, ?_, ?_, ?_⟩
+  · have := (Nat.le_div_iff_mul_le hpos).mp hlow
+    omega
+  · rw [Nat.div_lt_iff_lt_mul hpos] at c2
+    rw [Nat.pow_succ, Nat.mul_comm]; exact c2
+  · have : wrapI32 (e + 4 * ↑t4 + 2 * ↑t2 + 1 * ↑t1) = e + 4 * ↑t4 + 2 * ↑t2 + 1 * ↑t1 := by
+      apply wrapI32_eq <;> omega
+    rw [this]; push_cast; ring
+
 end LexVerif.Proof.Slow
